@@ -63,6 +63,9 @@ def _seq(x):
     return x
 
 
+XDEF = "(Definition/Xexp/#, (Item-count/#, Square))"      # declared outside the sidecar (extra_def_dicts)
+
+
 def depth_of(enc):
     if isinstance(enc, str):
         return 0
@@ -84,8 +87,14 @@ class Concretiser:
         self.k += 1
         return self.plain[(self.rot * 7 + self.k) % len(self.plain)]
 
-    def _valued(self):
+    def _valued(self, first=False):
         self.k += 1
+        if first:       # ONE placeholder may also be written as a valued Def or as its expanded group (two '#', one placeholder)
+            m = (self.rot + self.k) % 7
+            if m == 0:
+                return "Def/Xexp/#"
+            if m == 1:
+                return ["(Def-expand/Xexp/#, (Item-count/#, Square))", "((Square, Item-count/#), Def-expand/Xexp/#)"][self.rot % 2]
         return self.valued[(self.rot * 5 + self.k) % len(self.valued)]
 
     def _string(self, h, r, b, d):
@@ -96,8 +105,8 @@ class Concretiser:
             parts.append("{" + self._plain())
         elif b == "close":
             parts.append(self._plain() + "}")
-        for _ in range(h):
-            parts.append(self._valued())
+        for j in range(h):
+            parts.append(self._valued(first=(j == 0)))
         if d:
             self.k += 1
             parts.append("(Definition/Cdef%d/#, (%s, %s))" % (self.k, self._valued(), self._plain()))
@@ -132,14 +141,16 @@ class Concretiser:
 def _init():
     from hed import load_schema_version
     from hed.models.sidecar import Sidecar
+    from hed.models.definition_dict import DefinitionDict
     _G["schema"] = load_schema_version("8.3.0")
     _G["Sidecar"] = Sidecar
+    _G["dd"] = DefinitionDict(XDEF, _G["schema"])
 
 
 def run_text(text):
     """-> {"raised": name, "msg":, "where":} | {"notlist": type} | {"issues": [(code, severity, column, key)]}"""
     try:
-        issues = _G["Sidecar"](io.StringIO(text)).validate(_G["schema"])
+        issues = _G["Sidecar"](io.StringIO(text)).validate(_G["schema"], extra_def_dicts=_G["dd"])
     except Exception as ex:  # noqa  (the property: no exception of any type)
         tb = [fr for fr in traceback.extract_tb(ex.__traceback__) if "/hed/" in fr.filename]
         where = "%s:%d" % (tb[-1].filename.split("/hed/", 1)[-1], tb[-1].lineno) if tb else "?"
